@@ -14,6 +14,7 @@ def check(rep):
     ER.rule_retained_arguments(ctx, rid="C10.NO-RETAINED-ARGUMENT", modules={"binning/binning.py"})
     PR.rule_compiles(ctx, rid="C10.SHAPE-COMPILES", strict=False)
     PR.rule_key(ctx, rid="C10.ONE-KEY", mode="position")
+    PR.rule_locals_shadow_fields(ctx, "C10.FIELDS-NOT-SHADOWED", kinds=("assign",), consequence="the key then contains the repr of the chosen partial, i.e. the groups and weights of the branch")
     PR.rule_translation(ctx, rid="C10.DECLARED-ORDER", focus="order")
     rep.assume("the consequence 'no unit moves to a later group when no leading cumulative share decreases' follows from one "
                "position per unit + right bisection on prefix sums by arithmetic; that last step is an argument in DESIGN.md")
